@@ -200,7 +200,8 @@ def run(ctx):
             pass
     if evolve.discipline_problems(rich):
         raise Broken(f"the all-edits evolved model is outside the input discipline: {evolve.discipline_problems(rich)[:3]}")
-    stack_models = [("all-edits", "; ".join(rich_desc)[:600], rich)] + ([(t, ds, d) for t, ds, d in models[:len(evolve.EDITS)]] if ctx.thorough() else [])
+    deep = ("extends_and_mixins", "literal_property", "keyword_properties", "new_properties", "request_without_typename", "reorder_properties")
+    stack_models = [("all-edits", "; ".join(rich_desc)[:600], rich)] + ([(t, ds, d) for t, ds, d in models[:len(evolve.EDITS)] if t in deep] if ctx.thorough() else [])
     stack_results = []
 
     def run_stack():
